@@ -81,11 +81,11 @@ FLOORS = {
                            "inputs_with_all_nan_partition": 650, "inputs_with_nan_run_crosses_boundary": 450,
                            "inputs_with_single_row_partition": 1200},
               "max_skipped_fraction": 0.35},
-    "thorough": {"evaluations": 14000, "distinct_nontrivial": 10000,
-                 "counters": {"compared": 10000, "compared:cum": 3000, "compared:rolling": 2500, "compared:shift": 1200,
-                              "compared:diff": 1200, "compared:fill": 1800, "compared:map_overlap": 1200,
-                              "compared_multi_partition": 8000, "inputs_with_empty_partition": 2500,
-                              "inputs_with_all_nan_partition": 4000, "inputs_with_nan_run_crosses_boundary": 2500,
+    "thorough": {"evaluations": 14000, "distinct_nontrivial": 8500,
+                 "counters": {"compared": 10000, "compared:cum": 2700, "compared:rolling": 2600, "compared:shift": 900,
+                              "compared:diff": 850, "compared:fill": 1600, "compared:map_overlap": 1300,
+                              "compared_multi_partition": 7800, "inputs_with_empty_partition": 3000,
+                              "inputs_with_all_nan_partition": 3400, "inputs_with_nan_run_crosses_boundary": 2600,
                               "inputs_with_single_row_partition": 7000},
                  "max_skipped_fraction": 0.35},
 }
